@@ -104,12 +104,33 @@ def run(ctx):
     for f in reads:
         if f.rec.get("impl_trait") != "std::iter::Iterator":
             continue
-        gets = [(b, t) for b, t in f.calls() if t["callee"].endswith("[T]>::get") or t["callee"].endswith("Vec::<T, A>::get")]
-        rems = [(b, t) for b, t in f.calls() if t["callee"].endswith("Vec::<T, A>::remove")]
+        # position vocabulary: which element of the key list is looked at / taken out
+        def pos_of(t, kind):
+            c = t["callee"]
+            last = c.split("::")[-1]
+            if kind == "read":
+                if (c.endswith("[T]>::get") or c.endswith("Vec::<T, A>::get")) and len(t["args"]) == 2:
+                    return strip_site(f.op_origin(t["args"][1]))
+                if c.endswith("[T]>::first") or c.endswith("[T]>::split_first"):
+                    return ("const", 0, "usize")
+                if c.endswith("[T]>::last"):
+                    return ("last",)
+                if c in ("std::ops::Index::index",) and len(t["args"]) == 2 and "Vec<" in f.locals[t["args"][0]["place"]["l"]]["ty"] if t["args"][0].get("place") else False:
+                    return strip_site(f.op_origin(t["args"][1]))
+            else:
+                if c.endswith("Vec::<T, A>::remove") or c.endswith("Vec::<T, A>::swap_remove"):
+                    return strip_site(f.op_origin(t["args"][1]))
+                if c.endswith("Vec::<T, A>::pop"):
+                    return ("last",)
+                if c.endswith("VecDeque::<T, A>::pop_front"):
+                    return ("const", 0, "usize")
+            return None
+        gets = [(b, t, pos_of(t, "read")) for b, t in f.calls() if pos_of(t, "read") is not None and mentions(f.op_origin(t["args"][0]), lambda s_: s_[0] == "field" and s_[2] == "keys")]
+        rems = [(b, t, pos_of(t, "remove")) for b, t in f.calls() if pos_of(t, "remove") is not None and mentions(f.op_origin(t["args"][0]), lambda s_: s_[0] == "field" and s_[2] == "keys")]
         if gets or rems:
-            ok = len(gets) == 1 and len(rems) == 1 and strip_site(f.op_origin(gets[0][1]["args"][1])) == strip_site(f.op_origin(rems[0][1]["args"][1])) \
-                and rems[0][0] in f.reach_after(gets[0][0])
-            ctx.check(ok, "R02.2", "%s|consumes-the-key-it-read" % f.name, "the iterator removes from its list exactly the position it just looked up", f.where())
+            ok = len(gets) == 1 and len(rems) == 1 and gets[0][2] == rems[0][2] and rems[0][0] in f.reach_after(gets[0][0])
+            ctx.check(ok, "R02.2", "%s|consumes-the-key-it-read" % f.name, "the iterator removes from its list exactly the position it just looked up", f.where(),
+                      "read %s removed %s" % ([fmt(g[2]) for g in gets], [fmt(r_[2]) for r_ in rems]))
             # the value yielded is the one read for that key
             for p in enum_paths(f):
                 r = path_return(f, p)
